@@ -111,7 +111,7 @@ def gen_history(rng, nops, shape):
 def generate(rng, tier):
     big = tier == 'thorough'
     out = []
-    n = 24000 if big else 1500
+    n = 60000 if big else 5000
     for i in range(n):
         shape = rng.choice(['mixed', 'mixed', 'mixed', 'single', 'single-delta'])
         nops = rng.choice([20, 40, 80, 120, 200])
